@@ -109,16 +109,17 @@ def classify(run, lmap, fns_by_key):
         props = set()
         kind = msg.split(":")[0]
         if label: props |= set(label_props(label))
+        deps_props = set()
         if label and key:
             # properties whose obligations rest on this clause in the proofs of its callers (tools/label_deps.py)
-            props |= set(LABEL_DEPS.get("%s#%s" % (key, label), {}).get("props", []))
+            deps_props |= set(LABEL_DEPS.get("%s#%s" % (key, label), {}).get("props", []))
         safety = []
         if key and key in fns_by_key: safety = fns_by_key[key].get("safety", [])
         body_level = not (label and part in ("ensures", "theorem"))
         if body_level:
             props |= set(safety)
             # a function verified against a defining axiom (as_ref, serialize): the properties of what rests on that axiom
-            if key: props |= set(FN_BODY_PROPS.get(key, []))
+            if key: deps_props |= set(FN_BODY_PROPS.get(key, []))
         if not props and key and key in fns_by_key:
             # body-level failure in a function without a safety tag: it belongs to the properties that function's own contract names
             for l in fns_by_key[key].get("ens_labels", []): props |= set(label_props(l))
@@ -135,7 +136,8 @@ def classify(run, lmap, fns_by_key):
                 fnm = sp.get("file_name", "")
                 for (cf, cl) in CLOSURE_PRE:
                     if fnm.endswith(cf) and sp.get("line_start") == cl: closure_pre = True
-        failures.append({"obligation": name, "kind": kind, "fn": key, "label": label, "props": sorted(props), "message": msg, "closure_pre": closure_pre,
+        props_own = set(props); props |= deps_props
+        failures.append({"obligation": name, "kind": kind, "fn": key, "label": label, "props": sorted(props), "props_own": sorted(props_own), "message": msg, "closure_pre": closure_pre,
                          "line": prim["line_start"] if prim else None, "text": txt, "rendered": (d.get("rendered") or "")[:3000],
                          "src_file": (fnmeta or {}).get("file"), "src_line": (fnmeta or {}).get("src_line")})
     return failures, frontend, canary
@@ -258,13 +260,15 @@ def main(argv):
     base_sigs = {}
     if os.path.exists(os.path.join(VERIF, "baseline_sigs.json")): base_sigs = json.load(open(os.path.join(VERIF, "baseline_sigs.json")))
     runs = []; undecided = None; base = None
-    for attempt in range(10):
+    for attempt in range(30):
         try:
             text, lines_meta, ctx = build_unit(a.src, unit, stub, drop_uses, drop_contracts, ext_consts, renames, inline_fns, drop_hints)
         except extract.ExtractError as e:
             return global_fallback(a, props, claimed, "extraction failed: %s" % e)
         lmap = LineMap(lines_meta)
         fns_by_key = {"%s|%s::%s" % (f["file"], f["impl"], f["fn"]): f for f in ctx.fn_index}
+        for k, f in fns_by_key.items():
+            if f.get("forced_stub_reason") and k not in stub: stub.add(k); stub_reason[k] = f["forced_stub_reason"]
         changed = [k for k, f in fns_by_key.items() if baseline and baseline.get(k) != f["body_hash"] and not f["external_body"] and k not in stub]
         # a contracted function that vanished while a new one with the same signature appeared in the same impl: a rename, the contract follows
         more = False
@@ -329,7 +333,7 @@ def main(argv):
         runs.append(r); base = fails
         break
     else:
-        undecided = "could not isolate unsupported constructs after 10 attempts"
+        undecided = "could not isolate unsupported constructs after 30 attempts"
     if undecided:
         return global_fallback(a, props, claimed, undecided)
     if a.tier == "thorough":
@@ -408,6 +412,7 @@ def main(argv):
             fn = fns_by_key.get(f["fn"] or "", {})
             if f.get("closure_pre"): return "precondition of a closure passed to an Option/Result combinator (ghost-level only: no run-time check corresponds to it)"
             if pid not in f.get("props_direct", f["props"]): return "obligation of a callee that does not name this property (reached through the call cone only)"
+            if pid not in f.get("props_own", f["props"]): return "the clause does not name this property; an obligation of this property rests on it in a caller's proof (proof-dependency table)"
             if fn.get("hints_dropped"): return "proof hints lost their anchors (%s)" % ", ".join(fn["hints_dropped"])
             bt = fn.get("body_text", "")
             for k2 in drop_contracts:
